@@ -114,6 +114,16 @@ def specValues (env : Env) (x : Val) : Option (List Val) :=
 
 def fieldItem (f : Str × Val) : Item := .ok (.str f.1, f.2)
 
+/-- The items of an iterable with elements `xs`: the given pairs if the first element is a 2-element
+    collection, (index, element) otherwise; nothing for an empty one. -/
+def specSeqItems (env : Env) : List Val → Option (List Item)
+  | [] => some []
+  | e :: es =>
+    match isPair env e with
+    | some true => some ((e :: es).map (unpackPair env))
+    | some false => some ((indexed (e :: es)).map .ok)
+    | none => none
+
 /-- The items: (key, value) of a mapping, (field, value) of a structured object or named tuple, the
     given pairs of an iterable whose first element is a 2-element collection, (index, element)
     otherwise. -/
@@ -126,12 +136,7 @@ def specItems (env : Env) (x : Val) : Option (List Item) :=
     | none =>
       match elements env x with
       | none => none
-      | some [] => some []
-      | some (e :: es) =>
-        match isPair env e with
-        | some true => some ((e :: es).map (unpackPair env))
-        | some false => some ((indexed (e :: es)).map .ok)
-        | none => none
+      | some xs => specSeqItems env xs
 
 /-- Is `x` read as an iterable of pairs? -/
 def givenPairs (env : Env) (x : Val) : Bool :=
@@ -200,11 +205,10 @@ theorem isPrivate_eq (n : Str) : (!isPrivate n) = (n.head? != some '_') := by
   | cons c cs =>
     by_cases h : c = '_'
     · subst h; rfl
-    · simp only [List.head?_cons, bne, Option.some.injEq, beq_iff_eq, h]
-      unfold isPrivate
+    · unfold isPrivate
       split
       · rename_i heq; cases heq; exact absurd rfl h
-      · rfl
+      · simp [h]
 
 theorem publicOnly_eq (fs : List (Str × Val)) : (fs.filter fun f => !isPrivate f.1) = publicOnly fs := by
   unfold publicOnly; congr 1; funext f; exact isPrivate_eq f.1
@@ -256,21 +260,22 @@ theorem isPair_fun (env : Env) : isPair env = pairShaped env := funext (isPair_e
 
 /-- On sequences and one-shot iterators. -/
 theorem itemsOfSeq_spec (env : Env) (xs : List Val) (h : seqOk env xs = true) :
-    itemsOfSeq env xs =
-      match xs with
-      | [] => .ok []
-      | e :: es =>
-        match isPair env e with
-        | some true => .ok ((e :: es).map (unpackPair env))
-        | some false => .ok ((indexed (e :: es)).map .ok)
-        | none => .error .unsupported := by
+    itemsOfSeq env xs = ofSpec (specSeqItems env xs) ∧ (specSeqItems env xs).isSome = true := by
   cases xs with
-  | nil => rfl
+  | nil => exact ⟨rfl, rfl⟩
   | cons e es =>
-    simp only [itemsOfSeq, ← isPair_eq, enumerateFrom_zero]
-    cases isPair env e with
-    | none => rfl
-    | some b => cases b <;> rfl
+    simp only [seqOk] at h
+    simp only [itemsOfSeq, ← isPair_eq, enumerateFrom_zero, specSeqItems]
+    cases hp : isPair env e with
+    | none => simp [hp] at h
+    | some b => cases b <;> exact ⟨rfl, rfl⟩
+
+/-- A string is never an iterable of pairs: its elements are 1-character strings. -/
+theorem specSeqItems_chars (env : Env) (s : Str) :
+    specSeqItems env (chars s) = some ((indexed (chars s)).map .ok) := by
+  cases s with
+  | nil => rfl
+  | cons c cs => rfl
 
 theorem itemsOfSet_eq_seq (env : Env) (xs : List Val) (h : setOk env xs = true) :
     itemsOfSet env xs = itemsOfSeq env xs ∧ seqOk env xs = true := by
@@ -307,66 +312,25 @@ theorem iteritems_spec (env : Env) (x : Val) (h : inDomainItems env x = true) :
     iteritems env x = ofSpec (specItems env x) ∧ (specItems env x).isSome = true := by
   simp only [inDomainItems, Bool.and_eq_true] at h
   obtain ⟨hv, hi⟩ := h
-  have seqCase : ∀ xs : List Val, seqOk env xs = true →
-      itemsOfSeq env xs = ofSpec (match xs with
-        | [] => some []
-        | e :: es =>
-          match isPair env e with
-          | some true => some ((e :: es).map (unpackPair env))
-          | some false => some ((indexed (e :: es)).map Except.ok)
-          | none => none) ∧
-      (match xs with
-        | [] => some ([] : List Item)
-        | e :: es =>
-          match isPair env e with
-          | some true => some ((e :: es).map (unpackPair env))
-          | some false => some ((indexed (e :: es)).map Except.ok)
-          | none => none).isSome = true := by
-    intro xs hs
-    rw [itemsOfSeq_spec env xs hs]
-    cases xs with
-    | nil => exact ⟨rfl, rfl⟩
-    | cons e es =>
-      simp only [seqOk] at hs
-      cases hp : isPair env e with
-      | none => simp [hp] at hs
-      | some b => cases b <;> exact ⟨rfl, rfl⟩
   cases x <;> simp only [inDomainValues, Bool.false_eq_true] at hv <;>
     try (exact ⟨rfl, rfl⟩)
-  case list xs => exact seqCase xs hi
-  case tuple xs => exact seqCase xs hi
-  case deque xs => exact seqCase xs hi
-  case iter xs => exact seqCase xs hi
+  case list xs => exact itemsOfSeq_spec env xs hi
+  case tuple xs => exact itemsOfSeq_spec env xs hi
+  case deque xs => exact itemsOfSeq_spec env xs hi
+  case iter xs => exact itemsOfSeq_spec env xs hi
   case set xs =>
     obtain ⟨h1, h2⟩ := itemsOfSet_eq_seq env xs hi
-    have := seqCase xs h2
+    have := itemsOfSeq_spec env xs h2
     simp only [iteritems, h1]
     exact this
   case frozenset xs =>
     obtain ⟨h1, h2⟩ := itemsOfSet_eq_seq env xs hi
-    have := seqCase xs h2
+    have := itemsOfSeq_spec env xs h2
     simp only [iteritems, h1]
     exact this
   case str s =>
-    refine ⟨?_, ?_⟩
-    · simp only [iteritems, enumerateFrom_zero, specItems, mappingPairs, fieldPairs, elements]
-      cases hc : chars s with
-      | nil => simp [indexed, ofSpec]
-      | cons a as =>
-        have : isPair env a = some false := by
-          cases s with
-          | nil => cases hc
-          | cons ch cs => simp only [chars, List.map_cons, List.cons.injEq] at hc; rw [← hc.1]; rfl
-        simp [this, ofSpec]
-    · simp only [specItems, mappingPairs, fieldPairs, elements]
-      cases hc : chars s with
-      | nil => rfl
-      | cons a as =>
-        have : isPair env a = some false := by
-          cases s with
-          | nil => cases hc
-          | cons ch cs => simp only [chars, List.map_cons, List.cons.injEq] at hc; rw [← hc.1]; rfl
-        simp [this]
+    simp only [iteritems, enumerateFrom_zero, specItems, mappingPairs, fieldPairs, elements, specSeqItems_chars]
+    exact ⟨rfl, rfl⟩
   case inst c fs =>
     simp only [iteritems, specItems, mappingPairs, fieldPairs, classFlavour_eq, publicOnly_eq]
     cases hf : classFlavour env c with
@@ -377,25 +341,279 @@ theorem iteritems_spec (env : Env) (x : Val) (h : inDomainItems env x = true) :
     | none => simp [hs] at hv
     | some s =>
       obtain ⟨h1, h2⟩ := memberText_some hs
-      refine ⟨?_, ?_⟩
-      · simp only [iteritems, h1, h2, if_true, enumerateFrom_zero, specItems, mappingPairs, fieldPairs, elements, hs,
-          Option.map_some]
-        cases hc : chars s with
-        | nil => simp [indexed, ofSpec]
-        | cons a as =>
-          have : isPair env a = some false := by
-            cases s with
-            | nil => cases hc
-            | cons ch cs => simp only [chars, List.map_cons, List.cons.injEq] at hc; rw [← hc.1]; rfl
-          simp [this, ofSpec]
-      · simp only [specItems, mappingPairs, fieldPairs, elements, hs, Option.map_some]
-        cases hc : chars s with
-        | nil => rfl
-        | cons a as =>
-          have : isPair env a = some false := by
-            cases s with
-            | nil => cases hc
-            | cons ch cs => simp only [chars, List.map_cons, List.cons.injEq] at hc; rw [← hc.1]; rfl
-          simp [this]
+      simp only [iteritems, h1, h2, if_true, enumerateFrom_zero, specItems, mappingPairs, fieldPairs, elements, hs,
+        Option.map_some, specSeqItems_chars]
+      exact ⟨rfl, rfl⟩
+
+/-! ## Every element exactly once, in order -/
+
+theorem map_ok_snd (ps : List (Val × Val)) :
+    (ps.map (Except.ok : Val × Val → Item)).map (Except.map Prod.snd) = (ps.map Prod.snd).map (Except.ok : Val → R Val) := by
+  simp [List.map_map, Function.comp_def, Except.map]
+
+/-- Specification level: the items and the values of the same input line up one to one — an
+    iterable of pairs delivers each element, unpacked; everything else delivers (something, value). -/
+theorem spec_items_values (env : Env) (x : Val) (items : List Item) (vs : List Val)
+    (hi : specItems env x = some items) (hv : specValues env x = some vs) :
+    if givenPairs env x = true then items = vs.map (unpackPair env)
+    else items.map (Except.map Prod.snd) = vs.map .ok := by
+  unfold specItems at hi
+  unfold specValues at hv
+  unfold givenPairs
+  cases hm : mappingPairs x with
+  | some kvs =>
+    simp only [hm] at hi hv ⊢
+    cases hi; cases hv
+    simpa using map_ok_snd kvs
+  | none =>
+    simp only [hm] at hi hv ⊢
+    cases hf : fieldPairs env x with
+    | some fs =>
+      simp only [hf] at hi hv ⊢
+      cases hi; cases hv
+      simp [fieldItem, List.map_map, Function.comp_def, Except.map]
+    | none =>
+      simp only [hf] at hi hv ⊢
+      cases he : elements env x with
+      | none => simp [he] at hi
+      | some xs =>
+        simp only [he, Option.some.injEq] at hi hv ⊢
+        subst hv
+        cases xs with
+        | nil => simp only [specSeqItems, Option.some.injEq] at hi; subst hi; simp
+        | cons e es =>
+          simp only [specSeqItems] at hi
+          cases hp : isPair env e with
+          | none => simp [hp] at hi
+          | some b =>
+            cases b
+            · simp only [hp, Option.some.injEq] at hi
+              subst hi
+              simp only [hp, beq_iff_eq, Option.some.injEq, Bool.false_eq_true, if_false]
+              rw [map_ok_snd, indexed_snd]
+            · simp only [hp, Option.some.injEq] at hi
+              subst hi
+              simp [hp]
+
+theorem domain_items_values {env : Env} {x : Val} (h : inDomainItems env x = true) : inDomainValues env x = true := by
+  simp only [inDomainItems, Bool.and_eq_true] at h; exact h.1
+
+/-- **values_are_items_snd.** Where `x` is not read as an iterable of pairs (mappings, structured
+    objects, named tuples, enumerations), `itervalues` yields exactly the second components of
+    `iteritems`, position by position. -/
+theorem values_are_items_snd (env : Env) (x : Val) (h : inDomainItems env x = true) (hp : givenPairs env x = false) :
+    ∃ items vs, iteritems env x = .ok items ∧ itervalues env x = .ok vs ∧
+      items.map (Except.map Prod.snd) = vs.map .ok := by
+  obtain ⟨h1, h2⟩ := iteritems_spec env x h
+  obtain ⟨h3, h4⟩ := itervalues_spec env x (domain_items_values h)
+  obtain ⟨items, hi⟩ := Option.isSome_iff_exists.mp h2
+  obtain ⟨vs, hv⟩ := Option.isSome_iff_exists.mp h4
+  refine ⟨items, vs, by rw [h1, hi]; rfl, by rw [h3, hv]; rfl, ?_⟩
+  have := spec_items_values env x items vs hi hv
+  simpa [hp] using this
+
+/-- Where `x` *is* read as an iterable of pairs, `itervalues` yields the elements themselves and
+    `iteritems` the same elements, each unpacked by the consumer. -/
+theorem values_are_given_pairs (env : Env) (x : Val) (h : inDomainItems env x = true) (hp : givenPairs env x = true) :
+    ∃ items vs, iteritems env x = .ok items ∧ itervalues env x = .ok vs ∧ elements env x = some vs ∧
+      items = vs.map (unpackPair env) := by
+  obtain ⟨h1, h2⟩ := iteritems_spec env x h
+  obtain ⟨h3, h4⟩ := itervalues_spec env x (domain_items_values h)
+  obtain ⟨items, hi⟩ := Option.isSome_iff_exists.mp h2
+  obtain ⟨vs, hv⟩ := Option.isSome_iff_exists.mp h4
+  refine ⟨items, vs, by rw [h1, hi]; rfl, by rw [h3, hv]; rfl, ?_, ?_⟩
+  · unfold givenPairs at hp
+    unfold specValues at hv
+    cases hm : mappingPairs x with
+    | some _ => simp [hm] at hp
+    | none =>
+      cases hf : fieldPairs env x with
+      | some _ => simp [hm, hf] at hp
+      | none => simpa [hm, hf] using hv
+  · have := spec_items_values env x items vs hi hv
+    simpa [hp] using this
+
+/-- **each_once.** On the domain both functions deliver one item per thing `x` contains (mapping
+    values, field values, elements — `specValues`), in the same order: the counts agree, and the
+    value lists are equal (`values_are_items_snd` / `values_are_given_pairs` give the contents). -/
+theorem each_once (env : Env) (x : Val) (h : inDomainItems env x = true) :
+    ∃ items vs, iteritems env x = .ok items ∧ itervalues env x = .ok vs ∧ specValues env x = some vs ∧
+      items.length = vs.length := by
+  obtain ⟨h1, h2⟩ := iteritems_spec env x h
+  obtain ⟨h3, h4⟩ := itervalues_spec env x (domain_items_values h)
+  obtain ⟨items, hi⟩ := Option.isSome_iff_exists.mp h2
+  obtain ⟨vs, hv⟩ := Option.isSome_iff_exists.mp h4
+  refine ⟨items, vs, by rw [h1, hi]; rfl, by rw [h3, hv]; rfl, hv, ?_⟩
+  have := spec_items_values env x items vs hi hv
+  split at this
+  · rw [this, List.length_map]
+  · have hl := congrArg List.length this
+    simpa using hl
+
+/-- The enumeration of a list is lossless: the second components are the list, the first components
+    the indices `0 … len-1`, one item per element. -/
+theorem enumerate_lossless (xs : List Val) :
+    (indexed xs).map Prod.snd = xs ∧
+      (indexed xs).map Prod.fst = (List.range xs.length).map (fun i => Val.int (Int.ofNat i)) ∧
+      (indexed xs).length = xs.length :=
+  ⟨indexed_snd xs, indexed_fst xs, indexed_length xs⟩
+
+/-! ## One-shot iterators -/
+
+/-- Nothing is yielded for an empty one-shot iterator (and nothing is raised). -/
+theorem oneshot_empty (env : Env) : iteritems env (.iter []) = .ok [] ∧ itervalues env (.iter []) = .ok [] := ⟨rfl, rfl⟩
+
+/-- `itervalues` of a one-shot iterator yields every element — for every element list. -/
+theorem oneshot_values (env : Env) (xs : List Val) : itervalues env (.iter xs) = .ok xs := rfl
+
+/-- Whenever `iteritems` of a one-shot iterator returns, the returned iterator delivers as many items
+    as the input had elements: the peeked first element is not lost. No hypothesis on `xs`. -/
+theorem oneshot_all_delivered (env : Env) (xs : List Val) (items : List Item)
+    (h : iteritems env (.iter xs) = .ok items) : items.length = xs.length := by
+  simp only [iteritems, itemsOfSeq] at h
+  cases xs with
+  | nil => simp at h; subst h; rfl
+  | cons e es =>
+    simp only [] at h
+    cases hp : pairShaped env e with
+    | none => simp [hp] at h
+    | some b =>
+      cases b <;> simp only [hp, Except.ok.injEq] at h <;> subst h
+      · simp [enumerateFrom_length]
+      · simp
+
+/-- … and the first item is the first element's: `(0, e)`, or `e` itself unpacked if `e` makes the
+    input an iterable of pairs. -/
+theorem oneshot_first_included (env : Env) (e : Val) (es : List Val) (items : List Item)
+    (h : iteritems env (.iter (e :: es)) = .ok items) :
+    items.head? = some (if isPair env e = some true then unpackPair env e else .ok (.int 0, e)) := by
+  simp only [iteritems, itemsOfSeq, ← isPair_eq] at h
+  cases hp : isPair env e with
+  | none => simp [hp] at h
+  | some b =>
+    cases b <;> simp only [hp, Except.ok.injEq] at h <;> subst h
+    · simp [enumerateFrom]
+    · simp
+
+/-! ## Named tuples, private fields, given pairs -/
+
+/-- **namedtuple_never_pairs.** A named tuple yields (field, value) for *every* field, whatever the
+    fields hold — in particular when the first field is a 2-element value. -/
+theorem namedtuple_never_pairs (env : Env) (c : Nat) (fs : List (Str × Val))
+    (h : classFlavour env c = some .namedtuple) :
+    iteritems env (.inst c fs) = .ok (fs.map fieldItem) ∧ itervalues env (.inst c fs) = .ok (fs.map Prod.snd) := by
+  constructor
+  · simp only [iteritems, classFlavour_eq, h] <;> rfl
+  · simp only [itervalues, classFlavour_eq, h] <;> rfl
+
+theorem namedtuple_keeps_all (env : Env) (c : Nat) (fs : List (Str × Val)) (items : List Item)
+    (h : classFlavour env c = some .namedtuple) (hi : iteritems env (.inst c fs) = .ok items) :
+    items.length = fs.length := by
+  rw [(namedtuple_never_pairs env c fs h).1] at hi
+  cases hi; simp
+
+/-- **private_fields_skipped.** Any other structured object yields exactly its public fields, in
+    declaration order: each yielded item is a public field, each public field is yielded. -/
+theorem private_fields_skipped (env : Env) (c : Nat) (fs : List (Str × Val)) (fl : Flavour)
+    (h : classFlavour env c = some fl) (hn : fl ≠ .namedtuple) :
+    iteritems env (.inst c fs) = .ok ((publicOnly fs).map fieldItem) ∧
+      itervalues env (.inst c fs) = .ok ((publicOnly fs).map Prod.snd) ∧
+      (∀ f ∈ fs, (f ∈ publicOnly fs ↔ f.1.head? ≠ some '_')) := by
+  refine ⟨?_, ?_, ?_⟩
+  · cases fl <;>
+      first
+        | exact absurd rfl hn
+        | (simp only [iteritems, classFlavour_eq, h, publicOnly_eq] <;> rfl)
+  · cases fl <;>
+      first
+        | exact absurd rfl hn
+        | (simp only [itervalues, classFlavour_eq, h, publicOnly_eq] <;> rfl)
+  · intro f hf
+    simp [publicOnly, hf]
+
+def pairTuple (p : Val × Val) : Val := .tuple [p.1, p.2]
+def pairList (p : Val × Val) : Val := .list [p.1, p.2]
+
+theorem seq_pairs_given (env : Env) (mk : Val × Val → Val)
+    (hs : ∀ p, pairShaped env (mk p) = some true) (hu : ∀ p, unpackPair env (mk p) = .ok p) (ps : List (Val × Val)) :
+    itemsOfSeq env (ps.map mk) = .ok (ps.map .ok) := by
+  cases ps with
+  | nil => rfl
+  | cons p ps =>
+    simp only [List.map_cons, itemsOfSeq, hs, hu, List.map_map, Function.comp_def]
+
+/-- **The given pairs.** A list / tuple / deque / one-shot iterator of 2-tuples (or 2-lists) yields
+    exactly the given pairs, in order, none lost. -/
+theorem pairs_given (env : Env) (ps : List (Val × Val)) :
+    iteritems env (.list (ps.map pairTuple)) = .ok (ps.map .ok) ∧
+    iteritems env (.tuple (ps.map pairTuple)) = .ok (ps.map .ok) ∧
+    iteritems env (.deque (ps.map pairTuple)) = .ok (ps.map .ok) ∧
+    iteritems env (.iter (ps.map pairTuple)) = .ok (ps.map .ok) ∧
+    iteritems env (.iter (ps.map pairList)) = .ok (ps.map .ok) := by
+  have h1 := seq_pairs_given env pairTuple (fun _ => rfl) (fun _ => rfl) ps
+  have h2 := seq_pairs_given env pairList (fun _ => rfl) (fun _ => rfl) ps
+  exact ⟨h1, h1, h1, h1, h2⟩
+
+/-! ## The domain is the supported fragment -/
+
+/-- On the domain the model never answers `unsupported`: not for the call, not for an item. -/
+theorem domain_supported (env : Env) (x : Val) (h : inDomainItems env x = true) :
+    ∃ items, iteritems env x = .ok items ∧ ∀ it ∈ items, it ≠ .error .unsupported := by
+  obtain ⟨h1, h2⟩ := iteritems_spec env x h
+  obtain ⟨items, hi⟩ := Option.isSome_iff_exists.mp h2
+  refine ⟨items, by rw [h1, hi]; rfl, ?_⟩
+  simp only [inDomainItems, Bool.and_eq_true] at h
+  obtain ⟨hv, hd⟩ := h
+  have seqCase : ∀ xs : List Val, seqOk env xs = true → ∀ its, specSeqItems env xs = some its →
+      ∀ it ∈ its, it ≠ .error .unsupported := by
+    intro xs hs its hits it hit
+    cases xs with
+    | nil => simp [specSeqItems] at hits; subst hits; cases hit
+    | cons e es =>
+      simp only [seqOk] at hs
+      simp only [specSeqItems] at hits
+      cases hp : isPair env e with
+      | none => simp [hp] at hs
+      | some b =>
+        cases b
+        · simp only [hp, Option.some.injEq] at hits
+          subst hits
+          obtain ⟨p, _, rfl⟩ := List.mem_map.mp hit
+          intro hc; cases hc
+        · simp only [hp, Option.some.injEq] at hits hs
+          subst hits
+          obtain ⟨y, hy, rfl⟩ := List.mem_map.mp hit
+          have := List.all_eq_true.mp hs y hy
+          intro hc
+          simp [unpackable, hc] at this
+  unfold specItems at hi
+  cases hm : mappingPairs x with
+  | some kvs =>
+    simp only [hm, Option.some.injEq] at hi; subst hi
+    intro it hit; obtain ⟨p, _, rfl⟩ := List.mem_map.mp hit; intro hc; cases hc
+  | none =>
+    simp only [hm] at hi
+    cases hf : fieldPairs env x with
+    | some fs =>
+      simp only [hf, Option.some.injEq] at hi; subst hi
+      intro it hit; obtain ⟨p, _, rfl⟩ := List.mem_map.mp hit; intro hc; cases hc
+    | none =>
+      simp only [hf] at hi
+      cases he : elements env x with
+      | none => simp [he] at hi
+      | some xs =>
+        simp only [he] at hi
+        have hseq : seqOk env xs = true := by
+          cases x <;> simp only [elements, Option.some.injEq, reduceCtorEq] at he <;>
+            first
+              | (subst he; exact hd)
+              | (subst he; exact (itemsOfSet_eq_seq env _ hd).2)
+              | skip
+          case str s => subst he; cases s <;> rfl
+          case member c i =>
+            cases hs : memberText env c i with
+            | none => simp [hs] at he
+            | some s => simp only [hs, Option.map_some, Option.some.injEq] at he; subst he; cases s <;> rfl
+        exact seqCase xs hseq items hi
 
 end Typelib.C18
